@@ -5,7 +5,7 @@ import re
 
 from ..core import hexs, unhex, sx_parse
 from ..runner import Stream
-from .. import parse_streams
+from .. import parse_streams, gen_cmd
 from ..parse_common import parse_result
 
 ID = "C04"
@@ -787,7 +787,7 @@ def _level_defs(cmd, chain_names):
     return out
 
 
-def _in_language(vp, raw):
+def _in_language(vp, raw, icase=False):
     if vp == "os":
         return True
     if vp == "string":
@@ -799,6 +799,17 @@ def _in_language(vp, raw):
     if isinstance(vp, tuple) and vp[0] == "i64":
         return (is_utf8(raw) and bool(DEC_SIGNED.match(raw)) and vp[1] <= big_reading(raw) <= vp[2]
                 and I64_MIN <= big_reading(raw) <= I64_MAX)
+    # round 4: the parsers the case format can now name (the same independent readings as the streams
+    # `int` / `bool` / `possible` use on parse_ref directly)
+    if vp in ("boolish", "falsey", "nonempty"):
+        return expect_bool(vp, raw)[0] == "ok"
+    if isinstance(vp, tuple) and vp[0] == "int":
+        return expect_int(vp[1], ("incl", vp[2]), ("incl", vp[3]), raw)[0] == "ok"
+    if isinstance(vp, tuple) and vp[0] == "pv":
+        if not is_utf8(raw):
+            return False
+        names = [x for n, al, _hide in vp[1] for x in [n] + list(al)]      # hidden values are values
+        return expect_match(names, raw, icase) is not False                 # None: non-ASCII caseless, either verdict
     return True
 
 
@@ -828,7 +839,7 @@ def _stored_walk(case, impl):
                 for raw in g:
                     if vp not in ("os", "string"):
                         checked += 1
-                    if not _in_language(vp, raw):
+                    if not _in_language(vp, raw, "icase" in a.get("flags", ())):
                         return ("level %d: argument %r (parser %r) reports the value %r, which its value parser does not accept"
                                 % (k, e["id"], vp, raw)), checked, skipped
     return None, checked, skipped
@@ -874,9 +885,87 @@ def gen_stored(tier, rng):
     return parse_streams.gen_cases(rng, n, None, per_cmd=6, p_mutate=0.25, safe_p=0.8, want=_has_typed_arg)
 
 
+# ----------------------------------------------------------------- stream `stored_wide` (round 4)
+# The same reading on commands whose arguments carry the value parsers the parser MODEL can name since round 4:
+# boolish / falsey / non-empty / possible values (hidden values, aliases, ignore_case from the argument's flag) /
+# value_parser!(T).range(lo..=hi) for u8..u64.  Values are drawn around each parser's language boundary
+# (gen_cmd.wide_value): literals in flipped case, near misses, U+212A, names of hidden values, wrong case with and
+# without ignore_case, lo-1/lo/hi/hi+1, T::MIN-1/T::MAX+1, +/-2^63, 2^64, "-0", "+", non-UTF-8.
+WIDE_PROFILE = dict(vp_wide=0.55, vp_wide_ext=0.4, typed=0.25, defaults=0.35, env=0.25, max_opts=4, max_pos=2)
+VALUE_KINDS = ("InvalidValue", "ValueValidation", "InvalidUtf8")
+
+
+def _has_wide_arg(c):
+    return any(gen_cmd.vp_is_wide(a.get("vp")) for a in c["args"]) or any(_has_wide_arg(sc) for sc in c["subs"])
+
+
+def _wide_kind(vp):
+    return vp if isinstance(vp, str) else (vp[0] if vp[0] != "int" else "int-" + vp[1])
+
+
+def gen_stored_wide(tier, rng):
+    n = 4000 if tier == "quick" else 60000
+    return parse_streams.gen_cases(rng, n, WIDE_PROFILE, per_cmd=6, p_mutate=0.2, safe_p=0.75, want=_has_wide_arg)
+
+
+def make_wide_nontrivial(d):
+    """non-trivial = a successful parse that stores at least one value of an argument with a wide parser, or a
+    value-error rejection; the measured distribution (parser kinds stored, outcomes) goes into the evidence"""
+    def nt(case, impl):
+        p = parse_result(impl)
+        key = p["kind"] if p["kind"] != "err" else "err:" + p["ekind"]
+        d["outcome " + key] = d.get("outcome " + key, 0) + 1
+        if p["kind"] == "err":
+            return p["ekind"].split("|")[0] in VALUE_KINDS
+        if p["kind"] != "ok":
+            return False
+        cmd, _argv = parse_streams.decode_case(case)
+        lv = parse_streams.levels(p["m"])
+        defs = _level_defs(cmd, [n for (_e, n) in lv if n is not None])
+        hit = False
+        for k, (ents, _n) in enumerate(lv):
+            if k >= len(defs):
+                break
+            for e in ents:
+                a = defs[k].get(e["id"])
+                if a is None or e["src"] == "?" or not gen_cmd.vp_is_wide(a.get("vp")):
+                    continue
+                nv = sum(len(g) for g in e["occ"])
+                if nv:
+                    hit = True
+                    key = "values stored under %s (%s)" % (_wide_kind(a["vp"]), e["src"])
+                    d[key] = d.get(key, 0) + nv
+                    if isinstance(a["vp"], tuple) and a["vp"][0] == "pv":
+                        names = {x: h for n_, al, h in a["vp"][1] for x in [n_] + list(al)}
+                        for g in e["occ"]:
+                            for raw in g:
+                                if names.get(raw):
+                                    d["stored values that are HIDDEN possible values"] = \
+                                        d.get("stored values that are HIDDEN possible values", 0) + 1
+                                elif raw not in names:
+                                    d["stored possible values matched caselessly (ignore_case)"] = \
+                                        d.get("stored possible values matched caselessly (ignore_case)", 0) + 1
+        return hit
+    return nt
+
+
+def stored_wide_project(r):
+    """full matches on success; the value-error kinds are C04's, other rejections only as `err`"""
+    p = parse_result(r)
+    if p["kind"] == "err":
+        k = p["ekind"].split("|")[0]
+        if k in ("DisplayHelp", "DisplayVersion"):
+            return "help-or-version"
+        return "err:" + k if k in VALUE_KINDS else "err"
+    if p["kind"] == "panic":
+        return "panic"
+    return r
+
+
 # ----------------------------------------------------------------- streams
 def streams(tier, rng):
     d_stored = {"measured": "on the implementation's results of this run (filled in while the stream is evaluated)"}
+    d_wide = {"measured": "on the implementation's results of this run (filled in while the stream is evaluated)"}
     sts = [
         Stream("int", gen_int(tier, rng), oracle=int_oracle, area="value", nontrivial=int_nontrivial),
         Stream("bool", gen_bool(tier, rng), oracle=bool_oracle, area="value", nontrivial=bool_nontrivial),
@@ -887,6 +976,8 @@ def streams(tier, rng):
                nontrivial=lambda c, r: "(err " in (r or "")),
         Stream("stored", gen_stored(tier, rng), oracle=stored_oracle, area="parse", project=stored_project,
                nontrivial=make_stored_nontrivial(d_stored), describe=d_stored),
+        Stream("stored_wide", gen_stored_wide(tier, rng), oracle=stored_oracle, area="parse", project=stored_wide_project,
+               nontrivial=make_wide_nontrivial(d_wide), describe=d_wide),
     ]
     if tier == "thorough":
         # builds without debug assertions: range() does not assert, verify_arg does not check
